@@ -27,3 +27,5 @@ def check(ctx: Ctx) -> None:
     # a synchronisation object another session keeps while its own command (until-closed, flush, gather-and-close) waits
     from .c19 import r_no_shared_lock
     r_no_shared_lock(ctx, "R17.17")
+    # "the reply is ...": of the command just sent - no side gives up waiting and leaves a reply behind for the next command to pick up
+    CT.r_no_timeouts(ctx, "R17.18")
